@@ -191,6 +191,7 @@ func runC04(c *Ctx) {
 	}
 	r.Add("R2", "no-reacquire", "-", "", "no re-acquisition of the handler-set lock anywhere in package client", true, "checked all call sites against transitive acquire sets")
 	c.c04Atomic(funcs, ls, lock, setVar, guarded)
+	c.c04AllSets()
 
 	// ---- R3
 	c.noLockAcrossHandlers("R3", funcs, ls, lock)
@@ -276,6 +277,9 @@ func (c *Ctx) allOriginsLocalAlloc(v ssa.Value, fn *ssa.Function) bool {
 	switch t := v.(type) {
 	case *ssa.Alloc:
 		return t.Parent() == fn
+	case *ssa.FieldAddr:
+		// a struct embedded by value in the object under construction
+		return c.allOriginsLocalAlloc(t.X, fn)
 	case *ssa.Phi:
 		for _, e := range t.Edges {
 			if !c.allOriginsLocalAlloc(e, fn) {
